@@ -30,6 +30,10 @@ def concStoreLine (st : CsRun) (lineNo : Nat) (line : String) : Except String (C
          s!"PROPFAIL C16 polled_like_any_other {tag}"]) ++
       (if n "late_flight_fail" == 0 then [] else [s!"PROPFAIL C16 concurrent_lookup_gets_handle {tag} (late second flight)"]) ++
       (if n "lookup_panics" == 0 then [] else [s!"PROPFAIL C16 concurrent_lookup_gets_handle {tag} (a lookup panicked)", s!"PROPFAIL C12 handle_never_panics {tag} (a lookup panicked)"]) ++
+      (if n "below_floor" == 0 then [] else
+        [s!"PROPFAIL C12 later_calls_see_completed_poll {tag} (a value read after a completed Refresh was later replaced by an older one)",
+         s!"PROPFAIL C11 poll_ok_fresh {tag} (a completed poll's value was later replaced by an older one)"]) ++
+      (if n "upd_e_stale" == 0 then [] else [s!"PROPFAIL C15 no_lost_update {tag} (an updater on a looked-up secret is built from old bytes after a completed refresh)"]) ++
       (if n "cu_stale_get" == 0 then [] else [s!"PROPFAIL C15 next_get_sees_newest {tag}"]) ++
       (if ((lookup fs "cu_final").getD "2") == "2" then [] else [s!"PROPFAIL C15 no_lost_update {tag} (quiescent Get after two installs)"]) ++
       (if n "cu_cur_closed" == 0 then [] else [s!"PROPFAIL C15 current_never_closed {tag}"]) ++
